@@ -153,18 +153,48 @@ func otherWho(w string) string {
 	return "c1"
 }
 
+// markOf: the mark of the genuine payload ("genuine"; the concurrent sub-check gives every token a mark of its own).
+func markOf(c Case) string {
+	if c.Tok.Mark != "" {
+		return c.Tok.Mark
+	}
+	return "genuine"
+}
+
+// validMark: lower-case letters and digits with at least one letter (so that the upper-case form differs), never a mark
+// the attacker payloads use.
+func validMark(m string) bool {
+	if m == "" {
+		return true
+	}
+	if len(m) > 16 || m == "evil" || m == "admin" || m == "sigsrc" || m == "genuine" {
+		return false
+	}
+	letter := false
+	for _, r := range m {
+		switch {
+		case r >= 'a' && r <= 'z':
+			letter = true
+		case r >= '0' && r <= '9':
+		default:
+			return false
+		}
+	}
+	return letter
+}
+
 // evilPayload is the payload an attacker wants believed: the genuine one with another mark (and with another principal).
 func evilPayload(c Case, variant int) []byte {
 	switch variant {
 	case 1:
-		return payloadFor(c, who(c), "GENUINE") // same length as the genuine payload
+		return payloadFor(c, who(c), strings.ToUpper(markOf(c))) // same length as the genuine payload
 	case 2:
 		if perClient(c.Kind) {
 			return payloadFor(c, otherWho(who(c)), "evil")
 		}
 		return payloadFor(c, who(c), "admin")
 	case 3:
-		return payloadFor(c, who(c), "genuine") // byte-identical: benign
+		return payloadFor(c, who(c), markOf(c)) // byte-identical: benign
 	}
 	return payloadFor(c, who(c), "evil")
 }
@@ -230,7 +260,7 @@ func buildToken(c Case) (*built, error) { return buildTokenFrom(c, nil) }
 // sameSigning: two token specs describe the same genuinely signed token (header and payload bytes agree)
 func sameSigning(a, b TokSpec) bool {
 	return a.Alg == b.Alg && a.Key == b.Key && a.KID == b.KID && a.HasKID == b.HasKID && a.Iss == b.Iss && a.Sub == b.Sub && a.EmbedJWK == b.EmbedJWK &&
-		a.Time == b.Time && a.CID == b.CID
+		a.Time == b.Time && a.CID == b.CID && a.Mark == b.Mark
 }
 
 // buildTokenFrom: as buildToken; if base is given it is the genuinely signed token of an earlier call of the same case
@@ -238,7 +268,7 @@ func sameSigning(a, b TokSpec) bool {
 // otherwise yield another signature), so that the manipulations are derived from a token the verifier has seen.
 func buildTokenFrom(c Case, base *vkit.Token) (*built, error) {
 	signer := vkit.Key(c.Tok.Key)
-	p0 := payloadFor(c, who(c), "genuine")
+	p0 := payloadFor(c, who(c), markOf(c))
 	var jwk []byte
 	if c.Tok.EmbedJWK {
 		j := signer.JWK(c.Tok.KID, "sig", c.Tok.Alg)
